@@ -26,6 +26,25 @@ Proof. induction 1; simpl; lia. Qed.
 Lemma fold_right_add_acc (l : list nat) a : fold_right Nat.add a l = fold_right Nat.add 0 l + a.
 Proof. induction l; simpl; lia. Qed.
 
+Lemma nth_repeat_lt_aux (a : nat) n x : x < n -> nth x (repeat a n) 0 = a.
+Proof. revert x. induction n as [|n IH]; intros x H; [lia|]. destruct x; simpl; [reflexivity | apply IH; lia]. Qed.
+
+Lemma firstn_In_aux {A} (l : list A) k x : In x (firstn k l) -> In x l.
+Proof. revert l. induction k as [|k IH]; intros [|a l]; simpl; try tauto. intros [H|H]; [now left | right; now apply IH]. Qed.
+
+Lemma In_firstn_nth_error {A} (l : list A) k x : In x (firstn k l) -> exists i, i < k /\ nth_error l i = Some x.
+Proof.
+  revert l. induction k as [|k IH]; intros [|a l]; simpl; try tauto. intros [H|H].
+  - exists 0. split; [lia | now subst].
+  - destruct (IH l H) as [i [Hi E]]. exists (S i). split; [lia | exact E].
+Qed.
+
+Lemma nth_error_firstn_lt {A} (l : list A) k i : i < k -> nth_error (firstn k l) i = nth_error l i.
+Proof.
+  revert l i. induction k as [|k IH]; intros l i H; [lia|]. destruct l as [|a l]; [now destruct i|].
+  destruct i as [|i]; [reflexivity|]. simpl. apply IH. lia.
+Qed.
+
 (** * Association lists *)
 Section Alist.
 Context {A : Type}.
@@ -1451,3 +1470,877 @@ Proof.
   assert (Hl0 : l0 = []) by (destruct l0; [reflexivity | simpl in S2; lia]).
   subst l0. simpl in S1. apply Nat.eqb_eq. lia.
 Qed.
+
+(** * aggregate_dendrogram *)
+Definition member (ids : list nat) (y : nat) : bool := memn y ids.
+Definition rank (ids : list nat) (x : nat) : nat := length (filter (member ids) (seq 0 x)).
+
+Lemma pos_app_here x l1 l2 : ~ In x l1 -> pos x (l1 ++ x :: l2) = length l1.
+Proof.
+  induction l1 as [|y l1 IH]; simpl; intros H.
+  - now rewrite Nat.eqb_refl.
+  - destruct (Nat.eqb x y) eqn:E; [apply Nat.eqb_eq in E; subst; tauto|]. rewrite IH; tauto.
+Qed.
+
+Lemma seq_split s a b : seq s (a + b) = seq s a ++ seq (s + a) b.
+Proof. apply seq_app. Qed.
+
+Lemma In_le_list_max x l : In x l -> x <= list_max l.
+Proof.
+  intros H. assert (Hf := proj1 (list_max_le l (list_max l)) (Nat.le_refl _)).
+  rewrite Forall_forall in Hf. now apply Hf.
+Qed.
+
+Lemma pos_sorted_ids ids x : In x ids -> pos x (sorted_ids ids) = rank ids x.
+Proof.
+  intros Hin. assert (Hle := In_le_list_max x ids Hin). unfold sorted_ids, rank.
+  replace (S (list_max ids)) with (x + S (list_max ids - x)) by lia.
+  rewrite seq_split, filter_app. simpl.
+  assert (Hm : memn x ids = true) by now apply memn_In. rewrite Hm.
+  apply pos_app_here. intros Hc. apply filter_In in Hc. destruct Hc as [Hc _]. apply in_seq in Hc. lia.
+Qed.
+
+Lemma rank_le ids x y : x <= y -> rank ids x <= rank ids y.
+Proof.
+  intros H. unfold rank. replace y with (x + (y - x)) by lia. rewrite seq_split, filter_app, app_length. lia.
+Qed.
+
+Lemma rank_lt ids x y : In x ids -> x < y -> rank ids x < rank ids y.
+Proof.
+  intros Hin H. apply Nat.lt_le_trans with (rank ids (S x)); [|apply rank_le; lia].
+  unfold rank. replace (S x) with (x + 1) by lia. rewrite seq_split, filter_app, app_length. simpl.
+  unfold member. replace (memn x ids) with true by (symmetry; now apply memn_In). simpl. lia.
+Qed.
+
+Lemma rank_inj ids x y : In x ids -> In y ids -> rank ids x = rank ids y -> x = y.
+Proof.
+  intros Hx Hy E. destruct (Nat.lt_trichotomy x y) as [H|[H|H]]; [|exact H|].
+  - apply (rank_lt ids x y Hx) in H. lia.
+  - apply (rank_lt ids y x Hy) in H. lia.
+Qed.
+
+Lemma sorted_ids_In ids x : In x (sorted_ids ids) <-> In x ids.
+Proof.
+  unfold sorted_ids. rewrite filter_In, in_seq, memn_In. split; [tauto|]. intros H. split; [|exact H].
+  apply In_le_list_max in H. lia.
+Qed.
+
+Lemma nth_pos x l d : In x l -> nth (pos x l) l d = x.
+Proof.
+  induction l as [|y l IH]; simpl; [tauto|]. intros H. destruct (Nat.eqb x y) eqn:E.
+  - apply Nat.eqb_eq in E. now subst.
+  - apply Nat.eqb_neq in E. destruct H as [H|H]; [congruence|]. now apply IH.
+Qed.
+
+Lemma nth_rank_sorted_ids ids x : In x ids -> nth (rank ids x) (sorted_ids ids) 0 = x.
+Proof.
+  intros H. rewrite <- (pos_sorted_ids ids x H). apply nth_pos. now apply sorted_ids_In.
+Qed.
+
+Lemma sorted_ids_NoDup ids : NoDup (sorted_ids ids).
+Proof. unfold sorted_ids. apply NoDup_filter, seq_NoDup. Qed.
+
+(** Counting the members below a bound through a duplicate-free list of them. *)
+Lemma filter_seq_length (f : nat -> bool) (keys : list nat) m :
+  NoDup keys -> (forall y, In y keys <-> y < m /\ f y = true) ->
+  length (filter f (seq 0 m)) = length keys.
+Proof.
+  intros Hnd Hiff. apply Permutation_length, NoDup_Permutation.
+  - apply NoDup_filter, seq_NoDup.
+  - exact Hnd.
+  - intros y. rewrite filter_In, in_seq, Hiff. split; intros [H1 H2]; split; try lia; assumption.
+Qed.
+
+Lemma ids_children L c : In c (map r_left L ++ map r_right L) <-> In c (flat_map children L).
+Proof.
+  rewrite in_app_iff, !in_map_iff, in_flat_map. unfold children. split.
+  - intros [[r [E H]]|[r [E H]]]; exists r; simpl; auto.
+  - intros [r [H [E|[E|[]]]]]; [left|right]; now exists r.
+Qed.
+
+Lemma nth_skipn' {A} (l : list A) t s d : nth s (skipn t l) d = nth (t + s) l d.
+Proof. revert l. induction t as [|t IH]; intros [|a l]; simpl; auto. now destruct s. Qed.
+
+Lemma nth_error_skipn {A} (l : list A) t s : nth_error (skipn t l) s = nth_error l (t + s).
+Proof. revert l. induction t as [|t IH]; intros [|a l]; simpl; auto. now destruct s. Qed.
+
+Lemma nth_firstn' {A} (l : list A) k y d : y < k -> nth y (firstn k l) d = nth y l d.
+Proof.
+  revert l y. induction k as [|k IH]; intros l y H; [lia|]. destruct l as [|a l]; simpl; [now destruct y|].
+  destruct y as [|y]; [reflexivity|]. apply IH. lia.
+Qed.
+
+Lemma firstn_app_exact {A} (l1 l2 : list A) s : firstn (length l1 + s) (l1 ++ l2) = l1 ++ firstn s l2.
+Proof. induction l1 as [|a l1 IH]; simpl; [reflexivity | now rewrite IH]. Qed.
+
+Lemma mapr_ok {A B} (f : A -> result B) (g : A -> B) l :
+  (forall a, In a l -> f a = Ok (g a)) -> mapr f l = Ok (map g l).
+Proof.
+  induction l as [|a l IH]; simpl; intros H; [reflexivity|].
+  rewrite (H a) by now left. rewrite IH; [reflexivity|]. intros a' Ha'. apply H. now right.
+Qed.
+
+Lemma wsz_unit n D x : wsz n (repeat 1 n) D x = true_count n D x.
+Proof.
+  unfold wsz, true_count. destruct (Nat.ltb x n) eqn:E; [|reflexivity]. apply Nat.ltb_lt in E.
+  apply nth_repeat_lt_aux; assumption.
+Qed.
+
+Section Aggregate.
+Context (n : nat) (D : dendrogram) (nc : nat) (Hv : valid n D = true) (Hnc : 2 <= nc <= n).
+
+Let t0 := n - nc.
+Let newD := skipn t0 D.
+Let ids := map r_left newD ++ map r_right newD.
+Let NI := sorted_ids ids.
+Let fr := fun r : drow => (pos (r_left r) NI, pos (r_right r) NI, r_height r, r_size r).
+Let out := map fr newD.
+Let ws := map (true_count n D) (firstn nc NI).
+
+Lemma agg_len : S (length D) = n /\ length newD = nc - 1 /\ length (firstn t0 D) = t0 /\ D = firstn t0 D ++ newD.
+Proof.
+  destruct (valid_rows n D Hv) as [Hlen _]. unfold newD, t0. rewrite skipn_length, firstn_length.
+  repeat split; try lia. symmetry. apply firstn_skipn.
+Qed.
+
+Lemma agg_rows s r : nth_error newD s = Some r -> nth_error D (t0 + s) = Some r /\ row_ok n D (t0 + s) r.
+Proof.
+  intros H. unfold newD in H. rewrite nth_error_skipn in H. split; [exact H|].
+  destruct (valid_rows n D Hv) as [_ Hr]. now apply Hr.
+Qed.
+
+Lemma agg_runs : exists l0 lf,
+  valid_run n (firstn t0 D) (init_live (repeat 1 n)) = Some l0 /\
+  valid_run n D (init_live (repeat 1 n)) = Some lf /\
+  linv n (firstn t0 D) l0 /\ linv n D lf /\ length l0 = nc /\ length lf = 1.
+Proof.
+  destruct agg_len as (Hlen & Hm & Hf & HD).
+  assert (H := Hv). unfold valid, validw in H. rewrite repeat_length in H.
+  apply andb_true_iff in H. destruct H as [H _]. apply andb_true_iff in H. destruct H as [_ H].
+  destruct (valid_run n D (init_live (repeat 1 n))) as [lf|] eqn:Ef; [|discriminate].
+  assert (Ef' := Ef). rewrite HD, valid_run_app in Ef'.
+  destruct (valid_run n (firstn t0 D) (init_live (repeat 1 n))) as [l0|] eqn:E0; [|discriminate].
+  exists l0, lf. split; [reflexivity|]. split; [reflexivity|].
+  assert (Hinit : linv n [] (init_live (repeat 1 n))).
+  { assert (H0 := linv_init (repeat 1 n)). now rewrite repeat_length in H0. }
+  split; [|split; [|split]].
+  - apply (valid_run_rows n (firstn t0 D) (firstn t0 D) [] _ l0 eq_refl Hinit). simpl. now rewrite Nat.add_0_r.
+  - apply (valid_run_rows n D D [] _ lf eq_refl Hinit). simpl. now rewrite Nat.add_0_r.
+  - apply valid_run_sum in E0. destruct E0 as [_ E0]. unfold init_live in E0.
+    rewrite combine_length, seq_length, !repeat_length, Nat.min_id, Hf in E0. unfold t0 in *. lia.
+  - apply valid_run_sum in Ef. destruct Ef as [_ Ef]. unfold init_live in Ef.
+    rewrite combine_length, seq_length, !repeat_length, Nat.min_id in Ef. lia.
+Qed.
+
+Lemma agg_member_cases c : In c ids ->
+  exists s r, nth_error newD s = Some r /\ In c (children r) /\ c < n + t0 + s /\
+              ~ In c (flat_map children (firstn (t0 + s) D)).
+Proof.
+  intros H. unfold ids in H. apply ids_children, in_flat_map in H. destruct H as [r [Hr Hc]].
+  destruct (In_nth_error _ _ Hr) as [s Hs]. exists s, r. split; [exact Hs|]. split; [exact Hc|].
+  destruct (agg_rows s r Hs) as [_ (Hne & Hil & Hjl & Hiu & Hju)].
+  destruct Hc as [<-|[<-|[]]]; split; try lia; assumption.
+Qed.
+
+Lemma agg_C1 c l0 : linv n (firstn t0 D) l0 -> In c ids ->
+  (c < n + t0 /\ In c (akeys l0)) \/ (exists s, c = n + t0 + s /\ s + 1 < length newD).
+Proof.
+  intros (_ & Hkeys & _) H. destruct agg_len as (Hlen & Hm & Hf & HD).
+  destruct (agg_member_cases c H) as (s & r & Hs & Hc & Hlt & Hnot).
+  assert (Hsm : s < length newD) by (apply nth_error_Some; congruence).
+  destruct (Nat.lt_ge_cases c (n + t0)) as [Hc0|Hc0].
+  - left. split; [exact Hc0|]. apply Hkeys. rewrite Hf. split; [exact Hc0|]. intros Hin. apply Hnot.
+    rewrite HD, <- Hf at 1. rewrite firstn_app_exact, flat_map_app, in_app_iff. now left.
+  - right. exists (c - (n + t0)). split; lia.
+Qed.
+
+Lemma agg_root_only lf x : linv n D lf -> length lf = 1 -> x + 1 < n + length D ->
+  In x (flat_map children D).
+Proof.
+  intros (Hnd & Hkeys & Hch) Hl Hx. destruct (valid_rows n D Hv) as [Hlen Hrows].
+  assert (Hroot : In (n + length D - 1) (akeys lf)).
+  { apply Hkeys. split; [lia|]. intros Hin. apply in_flat_map in Hin. destruct Hin as [r [Hr Hc]].
+    destruct (In_nth_error _ _ Hr) as [t Ht]. destruct (Hrows t r Ht) as (_ & Hil & Hjl & _).
+    assert (t < length D) by (apply nth_error_Some; congruence).
+    destruct Hc as [E|[E|[]]]; lia. }
+  destruct (in_dec Nat.eq_dec x (flat_map children D)) as [Hin|Hnin]; [exact Hin|]. exfalso.
+  assert (Hxk : In x (akeys lf)) by (apply Hkeys; split; [lia | exact Hnin]).
+  unfold akeys in *. destruct lf as [|a [|b lf]]; simpl in *; lia.
+Qed.
+
+Lemma agg_C2 l0 lf x : linv n (firstn t0 D) l0 -> linv n D lf -> length lf = 1 ->
+  (In x (akeys l0) \/ (exists s, x = n + t0 + s /\ s + 1 < length newD)) -> In x ids.
+Proof.
+  intros (Hnd0 & Hk0 & Hch0) Hlf Hl Hx. destruct agg_len as (Hlen & Hm & Hf & HD).
+  assert (Hnot : ~ In x (flat_map children (firstn t0 D))).
+  { destruct Hx as [Hx|[s [-> Hs]]]; [apply Hk0 in Hx; tauto|]. intros Hc. apply Hch0 in Hc. lia. }
+  assert (Hlt : x + 1 < n + length D).
+  { destruct Hx as [Hx|[s [-> Hs]]]; [apply Hk0 in Hx; rewrite Hf in Hx; unfold t0 in *; lia | unfold t0 in *; lia]. }
+  assert (Hin := agg_root_only lf x Hlf Hl Hlt). rewrite HD, flat_map_app, in_app_iff in Hin.
+  destruct Hin as [Hin|Hin]; [tauto|]. unfold ids. now apply ids_children.
+Qed.
+
+Lemma agg_rank : forall s, s + 1 <= length newD -> rank ids (n + t0 + s) = nc + s.
+Proof.
+  destruct agg_runs as (l0 & lf & _ & _ & Hl0 & Hlf & Hn0 & Hn1).
+  assert (Hbase : rank ids (n + t0) = nc).
+  { unfold rank. rewrite <- Hn0. rewrite <- (map_length fst l0). apply filter_seq_length.
+    - destruct Hl0 as [H _]. exact H.
+    - intros y. fold (akeys l0). split.
+      + intros Hy. split.
+        * destruct Hl0 as (_ & Hk & _). apply Hk in Hy. destruct agg_len as (_ & _ & Hf & _). rewrite Hf in Hy. lia.
+        * unfold member. apply memn_In. apply (agg_C2 l0 lf y Hl0 Hlf Hn1). now left.
+      + intros [Hy Hm]. unfold member in Hm. apply memn_In in Hm.
+        destruct (agg_C1 y l0 Hl0 Hm) as [[_ H]|[s [-> _]]]; [exact H | lia]. }
+  induction s as [|s IH]; intros Hs.
+  - now rewrite !Nat.add_0_r.
+  - replace (n + t0 + S s) with ((n + t0 + s) + 1) by lia. unfold rank in *.
+    rewrite seq_split, filter_app, app_length, IH by lia. simpl.
+    assert (Hm : member ids (n + t0 + s) = true).
+    { unfold member. apply memn_In. apply (agg_C2 l0 lf _ Hl0 Hlf Hn1). right. exists s. split; [reflexivity | lia]. }
+    rewrite Hm. simpl. lia.
+Qed.
+
+Lemma agg_child_rank s r c : nth_error newD s = Some r -> In c (children r) ->
+  In c ids /\ pos c NI = rank ids c /\ rank ids c < nc + s.
+Proof.
+  intros Hs Hc. assert (Hin : In c ids).
+  { unfold ids. apply ids_children, in_flat_map. exists r. split; [eapply nth_error_In; eassumption | exact Hc]. }
+  split; [exact Hin|]. split; [now apply pos_sorted_ids|].
+  assert (Hsm : s < length newD) by (apply nth_error_Some; congruence).
+  rewrite <- (agg_rank s) by lia. apply rank_lt; [exact Hin|].
+  destruct (agg_rows s r Hs) as [_ (Hne & Hil & Hjl & _)]. destruct Hc as [<-|[<-|[]]]; lia.
+Qed.
+
+Lemma agg_ws_length : length ws = nc.
+Proof.
+  unfold ws. rewrite map_length, firstn_length. apply Nat.min_l.
+  destruct agg_runs as (l0 & lf & _ & _ & Hl0 & Hlf & Hn0 & Hn1).
+  rewrite <- Hn0, <- (map_length fst l0). apply NoDup_incl_length; [destruct Hl0 as [H _]; exact H|].
+  intros y Hy. apply sorted_ids_In. apply (agg_C2 l0 lf y Hl0 Hlf Hn1). now left.
+Qed.
+
+Lemma agg_wsz c : In c ids -> wsz nc ws out (rank ids c) = true_count n D c.
+Proof.
+  intros Hin. destruct agg_runs as (l0 & lf & _ & _ & Hl0 & Hlf & Hn0 & Hn1).
+  destruct agg_len as (Hlen & Hm & Hf & HD). unfold wsz.
+  destruct (agg_C1 c l0 Hl0 Hin) as [[Hc _]|[s [-> Hs]]].
+  - assert (Hr : rank ids c < nc).
+    { assert (H0 := agg_rank 0 ltac:(lia)). rewrite !Nat.add_0_r in H0. rewrite <- H0. now apply rank_lt. }
+    replace (Nat.ltb (rank ids c) nc) with true by (symmetry; now apply Nat.ltb_lt).
+    unfold ws. rewrite (nth_indep _ 0 (true_count n D 0)) by (fold ws; now rewrite agg_ws_length).
+    rewrite map_nth, nth_firstn' by assumption. unfold NI. now rewrite nth_rank_sorted_ids.
+  - rewrite agg_rank by lia.
+    replace (Nat.ltb (nc + s) nc) with false by (symmetry; apply Nat.ltb_ge; lia).
+    replace (nc + s - nc) with s by lia. unfold out.
+    rewrite (nth_indep _ drow0 (fr drow0)) by (rewrite map_length; lia). rewrite map_nth. unfold fr at 1. unfold r_size at 1. simpl.
+    unfold true_count. replace (Nat.ltb (n + t0 + s) n) with false by (symmetry; apply Nat.ltb_ge; lia).
+    unfold newD. rewrite nth_skipn'. f_equal. f_equal. lia.
+Qed.
+
+Lemma agg_valid : validw ws out = true.
+Proof.
+  destruct agg_len as (Hlen & Hm & Hf & HD).
+  apply static_validw.
+  - unfold out. rewrite map_length, agg_ws_length. lia.
+  - intros s r' Hr'. unfold out in Hr'. rewrite nth_error_map in Hr'.
+    destruct (nth_error newD s) as [r|] eqn:Hs; [|discriminate]. simpl in Hr'. inversion Hr'; subst r'. clear Hr'.
+    destruct (agg_rows s r Hs) as [HDs (Hne & Hil & Hjl & Hiu & Hju)].
+    destruct (agg_child_rank s r (r_left r) Hs ltac:(now left)) as (Hini & Epi & Hri).
+    destruct (agg_child_rank s r (r_right r) Hs ltac:(right; now left)) as (Hinj & Epj & Hrj).
+    rewrite agg_ws_length. unfold fr. unfold r_left at 1 2 3 4, r_right at 1 2 3 4, r_size at 1. simpl.
+    fold (r_left r) (r_right r). rewrite Epi, Epj.
+    assert (Hnotin : forall c, In c (children r) -> ~ In (rank ids c) (flat_map children (firstn s out))).
+    { intros c Hc Hin. unfold out in Hin. rewrite firstn_map in Hin. apply in_flat_map in Hin.
+      destruct Hin as [r2 [Hr2 Hc2]]. apply in_map_iff in Hr2. destruct Hr2 as [r1 [<- Hr1]].
+      destruct (In_firstn_nth_error _ _ _ Hr1) as [s1 [_ Hs1']].
+      assert (exists c1, In c1 (children r1) /\ rank ids c = pos c1 NI).
+      { unfold fr, children, r_left, r_right in Hc2. simpl in Hc2.
+        destruct Hc2 as [E|[E|[]]]; [exists (fst (fst (fst r1))) | exists (snd (fst (fst r1)))];
+          (split; [unfold children, r_left, r_right; simpl; auto | now symmetry]). }
+      destruct H as [c1 [Hc1 E]].
+      destruct (agg_child_rank s1 r1 c1 Hs1' Hc1) as (Hin1 & Ep1 & _). rewrite Ep1 in E.
+      destruct (agg_child_rank s r c Hs Hc) as (Hinc & _ & _).
+      apply rank_inj in E; [|assumption|assumption]. subst c1.
+      assert (Hbad : In c (flat_map children (firstn (t0 + s) D))).
+      { rewrite HD, <- Hf at 1. rewrite firstn_app_exact, flat_map_app, in_app_iff. right.
+        apply in_flat_map. exists r1. split; [exact Hr1 | exact Hc1]. }
+      destruct Hc as [<-|[<-|[]]]; tauto. }
+    split.
+    + unfold row_ok, r_left, r_right. simpl. fold (r_left r) (r_right r).
+      split; [intros E; apply rank_inj in E; [congruence|assumption|assumption]|].
+      split; [exact Hri|]. split; [exact Hrj|].
+      split; [apply Hnotin; now left | apply Hnotin; right; now left].
+    + rewrite (agg_wsz _ Hini), (agg_wsz _ Hinj).
+      assert (Hsz := validw_sizes (repeat 1 n) D Hv (t0 + s) r HDs).
+      now rewrite repeat_length, !wsz_unit in Hsz.
+Qed.
+
+Lemma agg_counts : mapr (leaf_count n D) (firstn nc NI) = Ok ws.
+Proof.
+  unfold ws. apply mapr_ok. intros l Hl. assert (Hin : In l ids).
+  { apply sorted_ids_In. eapply firstn_In_aux; eassumption. }
+  unfold leaf_count, true_count. destruct (Nat.ltb l n) eqn:E; [reflexivity|]. apply Nat.ltb_ge in E.
+  destruct (agg_member_cases l Hin) as (s & r & Hs & _ & Hlt & _).
+  assert (Hsm : s < length newD) by (apply nth_error_Some; congruence).
+  destruct agg_len as (Hlen & Hm & Hf & HD).
+  assert (Hl2 : l - n < length D) by (unfold t0 in *; lia).
+  apply nth_error_Some in Hl2. destruct (nth_error D (l - n)) as [r'|] eqn:Er; [|congruence].
+  now rewrite (nth_error_nth' _ _ _ drow0 Er).
+Qed.
+End Aggregate.
+
+Lemma last_map' {A B} (f : A -> B) l d d' : l <> [] -> last (map f l) d' = f (last l d).
+Proof.
+  induction l as [|a l IH]; [congruence|]. intros _. destruct l as [|b l]; [reflexivity|].
+  change (last (map f (a :: b :: l)) d') with (last (map f (b :: l)) d').
+  change (last (a :: b :: l) d) with (last (b :: l) d). apply IH. discriminate.
+Qed.
+
+Lemma last_skipn' {A} (l : list A) t d : t < length l -> last (skipn t l) d = last l d.
+Proof.
+  revert l. induction t as [|t IH]; intros l H; [reflexivity|].
+  destruct l as [|a l]; simpl in H; [lia|]. simpl skipn. rewrite IH by lia.
+  destruct l; [simpl in H; lia | reflexivity].
+Qed.
+
+Lemma aggregate_dendrogram_ok n D nc rc out oc :
+  valid n D = true -> aggregate_dendrogram D nc rc = Ok (out, oc) ->
+  1 <= nc <= n /\
+  let ws := if Nat.eqb nc 1 then [n] else map (true_count n D) (kept_ids n D nc) in
+  validw ws out = true /\ length ws = nc /\ sumn ws = n /\
+  heights out = heights (skipn (n - nc) D) /\ (rc = true -> oc = Some ws).
+Proof.
+  intros Hv H. destruct (valid_rows n D Hv) as [Hlen _].
+  unfold aggregate_dendrogram, aggregate_dendrogram_with in H. rewrite Hlen in H.
+  unfold check_n_clusters in H.
+  destruct (Nat.ltb n nc) eqn:E1; [discriminate|]. destruct (Nat.ltb nc 1) eqn:E2; [discriminate|].
+  apply Nat.ltb_ge in E1, E2. split; [lia|].
+  assert (Hh : forall g : drow -> nat, heights (map (fun r => (g r, g r, r_height r, r_size r)) (skipn (n - nc) D)) = heights (skipn (n - nc) D)) by
+    (intros g; unfold heights; rewrite map_map; reflexivity).
+  destruct (Nat.eqb nc 1) eqn:E3.
+  - apply Nat.eqb_eq in E3. subst nc. simpl.
+    assert (Hnil : skipn (n - 1) D = []) by (apply skipn_all2; lia). rewrite Hnil in H. simpl in H.
+    assert (Hout : out = []) by (destruct rc; inversion H; reflexivity). subst out.
+    split; [reflexivity|]. split; [reflexivity|]. split; [simpl; lia|]. split; [now rewrite Hnil|].
+    intros ->. now inversion H.
+  - apply Nat.eqb_neq in E3. assert (Hnc : 2 <= nc <= n) by lia. cbv zeta.
+    assert (Hval := agg_valid n D nc Hv Hnc). assert (Hwl := agg_ws_length n D nc Hv Hnc).
+    assert (Hcnt := agg_counts n D nc Hv Hnc). fold (kept_ids n D nc) in Hval, Hwl, Hcnt.
+    set (out' := map (fun r : drow => (pos (r_left r) (sorted_ids (map r_left (skipn (n - nc) D) ++ map r_right (skipn (n - nc) D))),
+                                       pos (r_right r) (sorted_ids (map r_left (skipn (n - nc) D) ++ map r_right (skipn (n - nc) D))),
+                                       r_height r, r_size r)) (skipn (n - nc) D)) in *.
+    assert (Hout : out = out' /\ (rc = true -> oc = Some (map (true_count n D) (kept_ids n D nc)))).
+    { destruct rc.
+      - simpl in H. unfold kept_ids in Hcnt. cbv zeta in Hcnt. rewrite Hcnt in H. inversion H. split; [reflexivity|]. reflexivity.
+      - inversion H. split; [reflexivity | discriminate]. }
+    destruct Hout as [-> Hoc]. split; [exact Hval|]. split; [exact Hwl|]. split; [|split; [|exact Hoc]].
+    + unfold validw in Hval. apply andb_true_iff in Hval. destruct Hval as [_ Hlast].
+      assert (Hne : skipn (n - nc) D <> []).
+      { intros E. apply (f_equal (@length drow)) in E. rewrite skipn_length in E. simpl in E. lia. }
+      destruct out' as [|r0 o] eqn:Eo.
+      { unfold out' in Eo. apply map_eq_nil in Eo. congruence. }
+      apply Nat.eqb_eq in Hlast. rewrite <- Hlast, <- Eo. unfold out'.
+      rewrite (last_map' _ _ drow0 drow0 Hne). unfold r_size at 1. simpl.
+      rewrite last_skipn' by lia.
+      assert (Hv' := Hv). unfold valid, validw in Hv'. apply andb_true_iff in Hv'. destruct Hv' as [_ Hl].
+      destruct D as [|d0 D']; [simpl in Hlen; lia|]. apply Nat.eqb_eq in Hl. rewrite Hl.
+      clear. induction n; simpl; auto.
+    + unfold out', heights. rewrite map_map. reflexivity.
+Qed.
+
+Lemma aggregate_dendrogram_total n D nc rc :
+  valid n D = true -> 1 <= nc <= n -> exists out oc, aggregate_dendrogram D nc rc = Ok (out, oc).
+Proof.
+  intros Hv Hnc. destruct (valid_rows n D Hv) as [Hlen _].
+  unfold aggregate_dendrogram, aggregate_dendrogram_with. rewrite Hlen. unfold check_n_clusters.
+  replace (Nat.ltb n nc) with false by (symmetry; apply Nat.ltb_ge; lia).
+  replace (Nat.ltb nc 1) with false by (symmetry; apply Nat.ltb_ge; lia).
+  destruct rc; [|now eexists; eexists].
+  destruct (Nat.eqb nc 1) eqn:E; simpl; [now eexists; eexists|]. apply Nat.eqb_neq in E.
+  assert (Hcnt := agg_counts n D nc Hv ltac:(lia)). rewrite Hcnt. now eexists; eexists.
+Qed.
+
+(** * Which merges a replay applies (any guard) *)
+Lemma leaves_nonempty n D : ids_lt n D -> forall x, x < n + length D -> leaves n D x <> [].
+Proof.
+  intros Hids x. induction x as [x IH] using lt_wf_ind. intros Hx.
+  destruct (Nat.lt_ge_cases x n) as [Hlt|Hge]; [rewrite leaves_leaf by assumption; discriminate|].
+  assert (Ht : x - n < length D) by lia. apply nth_error_Some in Ht.
+  destruct (nth_error D (x - n)) as [r|] eqn:Er; [|congruence].
+  replace x with (n + (x - n)) by lia. rewrite (leaves_node n D (x - n) r Hids Er).
+  destruct (Hids _ _ Er) as [Hl _]. intros E. apply app_eq_nil in E. destruct E as [E _].
+  apply (IH (r_left r)); [lia | lia | exact E].
+Qed.
+
+Definition inside (n : nat) (fl : nat -> bool) (x : nat) : Prop := x < n \/ fl (x - n) = true.
+Definition achildren (fl : nat -> bool) (D : dendrogram) (t : nat) : list nat :=
+  flat_map (fun t' => if fl t' then children (nth t' D drow0) else []) (seq 0 t).
+Definition cntT (fl : nat -> bool) (t : nat) : nat := length (filter fl (seq 0 t)).
+
+Lemma achildren_S fl D t : achildren fl D (S t) = achildren fl D t ++ (if fl t then children (nth t D drow0) else []).
+Proof. unfold achildren. rewrite seq_S, flat_map_app. simpl. now rewrite app_nil_r. Qed.
+
+Lemma achildren_ext fl fl' D t : (forall t', t' < t -> fl t' = fl' t') -> achildren fl D t = achildren fl' D t.
+Proof.
+  intros H. unfold achildren. induction t as [|t IH]; [reflexivity|].
+  rewrite seq_S, !flat_map_app. simpl. rewrite IH by (intros; apply H; lia). now rewrite (H t) by lia.
+Qed.
+
+Lemma cntT_S fl t : cntT fl (S t) = cntT fl t + (if fl t then 1 else 0).
+Proof. unfold cntT. rewrite seq_S, filter_app, app_length. simpl. destruct (fl t); reflexivity. Qed.
+
+Lemma cntT_ext fl fl' t : (forall t', t' < t -> fl t' = fl' t') -> cntT fl t = cntT fl' t.
+Proof.
+  intros H. induction t as [|t IH]; [reflexivity|]. rewrite !cntT_S, IH by (intros; apply H; lia).
+  now rewrite (H t) by lia.
+Qed.
+
+Lemma achildren_lt n D fl t c : (forall t r, nth_error D t = Some r -> row_ok n D t r) -> t <= length D ->
+  In c (achildren fl D t) -> c < n + t.
+Proof.
+  intros Hrows Ht H. unfold achildren in H. apply in_flat_map in H. destruct H as [t' [Ht' Hc]].
+  apply in_seq in Ht'. destruct (fl t'); [|contradiction].
+  assert (Hlt : t' < length D) by lia. apply nth_error_Some in Hlt.
+  destruct (nth_error D t') as [r|] eqn:Er; [|congruence].
+  rewrite (nth_error_nth' _ _ _ drow0 Er) in Hc. destruct (Hrows _ _ Er) as (_ & Hil & Hjl & _).
+  destruct Hc as [<-|[<-|[]]]; lia.
+Qed.
+
+Definition ginv (n : nat) (D : dendrogram) (t : nat) (fl : nat -> bool) (st : cstate) : Prop :=
+  cinv n D t st /\
+  (forall x, In x (akeys st) <-> x < n + t /\ inside n fl x /\ ~ In x (achildren fl D t)) /\
+  (forall t' r, t' < t -> nth_error D t' = Some r -> fl t' = true ->
+                inside n fl (r_left r) /\ inside n fl (r_right r) /\
+                exists k c, In (k, c) st /\ incl (leaves n D (n + t')) c) /\
+  length st + cntT fl t = n /\
+  (forall t', t <= t' -> fl t' = false).
+
+Lemma ginv_init n D : ginv n D 0 (fun _ => false) (init_clusters n).
+Proof.
+  split; [apply cinv_init|]. split; [|split; [|split]].
+  - intros x. unfold init_clusters, akeys. rewrite map_map. simpl. rewrite map_id, in_seq. unfold inside. simpl.
+    split; [intros H; split; [lia|split; [left; lia|tauto]] | intros [H _]; lia].
+  - intros t' r Ht'. lia.
+  - unfold init_clusters, cntT. rewrite map_length, seq_length. simpl. lia.
+  - reflexivity.
+Qed.
+
+Lemma ginv_step guard n D t r fl st st' :
+  valid n D = true -> nth_error D t = Some r -> ginv n D t fl st ->
+  cut_step guard (n + t) r st = Ok st' ->
+  exists fl', ginv n D (S t) fl' st' /\ (forall t', t' < t -> fl' t' = fl t').
+Proof.
+  intros Hv Hr (Hc & HK & HF & HL & HZ) Hstep.
+  assert (Hids := valid_ids_lt n D Hv). destruct (valid_rows n D Hv) as [Hlen Hrows].
+  assert (Ht : t < length D) by (apply nth_error_Some; congruence).
+  assert (Hc' := cut_step_cinv guard n D t r st st' Hids Hr Hc Hstep).
+  assert (Hsame : st' = st -> exists fl', ginv n D (S t) fl' st' /\ (forall t', t' < t -> fl' t' = fl t')).
+  { intros ->. exists fl. split; [|reflexivity]. split; [exact Hc'|]. split; [|split; [|split]].
+    - intros x. rewrite achildren_S, (HZ t) by lia. rewrite app_nil_r, HK. unfold inside.
+      split; [intros (H1 & H2 & H3); split; [lia|tauto]|].
+      intros (H1 & H2 & H3). split; [|tauto]. destruct H2 as [H2|H2]; [lia|].
+      destruct (Nat.eq_dec x (n + t)) as [->|Hne]; [|lia].
+      replace (n + t - n) with t in H2 by lia. rewrite HZ in H2 by lia. discriminate.
+    - intros t' r' Ht' Hr' Hfl. destruct (Nat.eq_dec t' t) as [->|Hne]; [rewrite HZ in Hfl by lia; discriminate|].
+      apply (HF t' r'); [lia | assumption | assumption].
+    - rewrite cntT_S, (HZ t) by lia. lia.
+    - intros t' Ht'. apply HZ. lia. }
+  unfold cut_step in Hstep.
+  destruct (alookup (r_left r) st) as [ci|] eqn:Hi; [|inversion Hstep; now apply Hsame].
+  destruct (alookup (r_right r) st) as [cj|] eqn:Hj; [|inversion Hstep; now apply Hsame].
+  destruct (guard r ci cj); [|inversion Hstep; now apply Hsame].
+  destruct (alookup (r_right r) (aremove (r_left r) st)) as [cj'|] eqn:Hj'; [|discriminate].
+  inversion Hstep; subst st'. clear Hstep Hsame.
+  destruct (Hrows t r Hr) as (Hne & Hil & Hjl & Hiu & Hju).
+  rewrite alookup_aremove_neq in Hj' by auto. rewrite Hj in Hj'. inversion Hj'; subst cj'. clear Hj'.
+  set (fl' := fun t' => if Nat.eqb t' t then true else fl t').
+  assert (Hext : forall t', t' < t -> fl' t' = fl t').
+  { intros t' Ht'. unfold fl'. destruct (Nat.eqb t' t) eqn:E; [apply Nat.eqb_eq in E; lia | reflexivity]. }
+  assert (Hins : forall x, x < n + t -> (inside n fl' x <-> inside n fl x)).
+  { intros x Hx. unfold inside. destruct (Nat.lt_ge_cases x n) as [Hlt|Hge]; [tauto|].
+    rewrite Hext by lia. tauto. }
+  destruct Hc as (Hnd & Hcl & _).
+  assert (Hik := alookup_key _ _ _ Hi). assert (Hjk := alookup_key _ _ _ Hj).
+  exists fl'. split; [|intros t' Ht'; now apply Hext]. split; [exact Hc'|]. split; [|split; [|split]].
+  - intros x. assert (Eflt : fl' t = true) by (unfold fl'; now rewrite Nat.eqb_refl).
+    rewrite achildren_S, Eflt, (nth_error_nth' _ _ _ drow0 Hr).
+    rewrite (achildren_ext fl' fl D t) by (intros; now apply Hext).
+    rewrite akeys_app, in_app_iff. simpl.
+    assert (Hk2 : In x (akeys (aremove (r_right r) (aremove (r_left r) st))) <->
+                  In x (akeys st) /\ x <> r_left r /\ x <> r_right r).
+    { rewrite akeys_aremove_iff by now apply NoDup_aremove. rewrite akeys_aremove_iff by assumption. tauto. }
+    rewrite Hk2, HK, in_app_iff. unfold children. simpl. split.
+    + intros [((H1 & H2 & H3) & H4 & H5)|[<-|[]]].
+      * split; [lia|]. split; [now apply Hins|]. intros [H|[H|[H|[]]]]; [tauto|congruence|congruence].
+      * split; [lia|]. split; [right; replace (n + t - n) with t by lia; unfold fl'; now rewrite Nat.eqb_refl|].
+        intros [H|[H|[H|[]]]]; [|lia|lia].
+        apply (achildren_lt n D fl t _ Hrows) in H; lia.
+    + intros (H1 & H2 & H3). destruct (Nat.eq_dec x (n + t)) as [->|Hx]; [right; now left|]. left.
+      split; [split; [lia|split; [apply Hins; [lia|exact H2] | tauto]]|].
+      split; intros ->; apply H3; right; simpl; tauto.
+  - intros t' r' Ht' Hr' Hfl. destruct (Nat.eq_dec t' t) as [->|Hne'].
+    + rewrite Hr in Hr'. inversion Hr'; subst r'.
+      apply HK in Hik. apply HK in Hjk. split; [apply Hins; tauto|]. split; [apply Hins; tauto|].
+      exists (n + t), (ci ++ cj). split; [apply in_app_iff; right; now left|].
+      rewrite (leaves_node n D t r Hids Hr).
+      destruct (Hcl _ _ (alookup_In _ _ _ Hi)) as (_ & -> & _).
+      destruct (Hcl _ _ (alookup_In _ _ _ Hj)) as (_ & -> & _). apply incl_refl.
+    + rewrite Hext in Hfl by lia. destruct (HF t' r' ltac:(lia) Hr' Hfl) as (Hi1 & Hi2 & k & c & Hin & Hincl).
+      destruct (Hrows t' r' Hr') as (_ & Hil' & Hjl' & _).
+      split; [apply Hins; [lia|exact Hi1]|]. split; [apply Hins; [lia|exact Hi2]|].
+      destruct (Nat.eq_dec k (r_left r)) as [->|Hk1].
+      { exists (n + t), (ci ++ cj). split; [apply in_app_iff; right; now left|].
+        assert (c = ci) by (apply (In_alookup _ _ _ Hnd) in Hin; congruence). subst c. now apply incl_appl. }
+      destruct (Nat.eq_dec k (r_right r)) as [->|Hk2'].
+      { exists (n + t), (ci ++ cj). split; [apply in_app_iff; right; now left|].
+        assert (c = cj) by (apply (In_alookup _ _ _ Hnd) in Hin; congruence). subst c. now apply incl_appr. }
+      exists k, c. split; [|exact Hincl]. apply in_app_iff. left.
+      apply aremove_In_neq; [apply aremove_In_neq|]; assumption.
+  - assert (Eflt : fl' t = true) by (unfold fl'; now rewrite Nat.eqb_refl).
+    rewrite cntT_S, (cntT_ext fl' fl t), Eflt by (intros; now apply Hext).
+    rewrite app_length. simpl. apply aremove_length in Hi.
+    assert (Hj2 : alookup (r_right r) (aremove (r_left r) st) = Some cj) by (rewrite alookup_aremove_neq by auto; exact Hj).
+    apply aremove_length in Hj2. lia.
+  - intros t' Ht'. unfold fl'. destruct (Nat.eqb t' t) eqn:E; [apply Nat.eqb_eq in E; lia|]. apply HZ. lia.
+Qed.
+
+Lemma ginv_replay guard n D : valid n D = true ->
+  forall rows done fl st st', D = done ++ rows -> ginv n D (length done) fl st ->
+    replay guard (n + length done) rows st = Ok st' ->
+    exists fl', ginv n D (length D) fl' st'.
+Proof.
+  intros Hv. induction rows as [|r rows IH]; intros done fl st st' HD Hinv Hrun.
+  - simpl in Hrun. inversion Hrun; subst. rewrite app_nil_r in *. now exists fl.
+  - simpl in Hrun. destruct (cut_step guard (n + length done) r st) as [st1|] eqn:Hs; [|discriminate].
+    assert (Hr : nth_error D (length done) = Some r) by (rewrite HD; apply nth_error_app_length).
+    destruct (ginv_step guard n D (length done) r fl st st1 Hv Hr Hinv Hs) as [fl1 [H1 _]].
+    apply (IH (done ++ [r]) fl1 st1 st').
+    + now rewrite <- app_assoc.
+    + rewrite app_length. simpl. now rewrite Nat.add_1_r.
+    + rewrite app_length. simpl. now rewrite Nat.add_1_r, <- plus_n_Sm.
+Qed.
+
+(** * The reduced dendrogram of get_labels *)
+Lemma reduce_loop_valid_run : forall rows cindex csize cur cur_new out,
+  reduce_loop rows cindex csize cur cur_new = Ok out ->
+  exists live', valid_run cur_new out csize = Some live'.
+Proof.
+  induction rows as [|r rows IH]; intros cindex csize cur cur_new out H; simpl in H.
+  - inversion H; subst. simpl. now eexists.
+  - destruct (alookup (r_left r) cindex) as [i_new|]; [|discriminate].
+    destruct (alookup (r_right r) (aremove (r_left r) cindex)) as [j_new|]; [|discriminate].
+    destruct (negb (Nat.eqb i_new j_new)) eqn:Hne.
+    + destruct (alookup i_new csize) as [si|] eqn:Hi; [|discriminate].
+      destruct (alookup j_new (aremove i_new csize)) as [sj|] eqn:Hj; [|discriminate].
+      match type of H with match ?X with _ => _ end = _ => destruct X as [out'|] eqn:Hrec end; [|discriminate].
+      inversion H; subst out. apply IH in Hrec. destruct Hrec as [live' Hl]. exists live'. simpl.
+      rewrite Hi. apply negb_true_iff, Nat.eqb_neq in Hne.
+      rewrite alookup_aremove_neq in Hj by auto. rewrite Hj.
+      replace (negb (Nat.eqb i_new j_new)) with true by (symmetry; apply negb_true_iff, Nat.eqb_neq; exact Hne).
+      rewrite Nat.eqb_refl. simpl. exact Hl.
+    + now apply IH in H.
+Qed.
+
+Lemma valid_run_last_size ws D live' :
+  S (length D) = length ws -> valid_run (length ws) D (init_live ws) = Some live' -> D <> [] ->
+  r_size (last D drow0) = sumn ws.
+Proof.
+  intros Hlen Hrun Hne. destruct (exists_last Hne) as [D1 [r Er]].
+  assert (Hfull := Hrun). rewrite Er in Hrun. rewrite Er, last_last. rewrite valid_run_app in Hrun.
+  destruct (valid_run (length ws) D1 (init_live ws)) as [l1|] eqn:E1; [|discriminate].
+  assert (Hlast : exists l0, live' = l0 ++ [(length ws + length D1, r_size r)]).
+  { simpl in Hrun. destruct r as [[[i j] h] s]. destruct (alookup i l1) as [si|]; [|discriminate].
+    destruct (alookup j l1) as [sj|]; [|discriminate].
+    destruct (negb (Nat.eqb i j) && Nat.eqb s (si + sj)); [|discriminate]. inversion Hrun. eexists. reflexivity. }
+  destruct Hlast as [l0 ->]. apply valid_run_sum in Hfull. destruct Hfull as [S1 S2].
+  unfold init_live in S1, S2. rewrite map_snd_combine in S1 by now rewrite seq_length.
+  rewrite combine_length, seq_length, Nat.min_id, <- Hlen, app_length in S2. simpl in S2.
+  assert (Hl0 : l0 = []) by (destruct l0; [reflexivity | simpl in S2; lia]).
+  subst l0. simpl in S1. lia.
+Qed.
+
+Lemma child_unique n D t1 t2 r1 r2 c :
+  (forall t r, nth_error D t = Some r -> row_ok n D t r) ->
+  nth_error D t1 = Some r1 -> nth_error D t2 = Some r2 -> In c (children r1) -> In c (children r2) -> t1 = t2.
+Proof.
+  intros Hrows H1 H2 Hc1 Hc2.
+  assert (Haux : forall ta tb ra rb, ta < tb -> nth_error D ta = Some ra -> nth_error D tb = Some rb ->
+                                     In c (children ra) -> In c (children rb) -> False).
+  { intros ta tb ra rb Hlt Ha Hb Hca Hcb. destruct (Hrows tb rb Hb) as (_ & _ & _ & Hiu & Hju).
+    assert (Hin : In c (flat_map children (firstn tb D))).
+    { apply in_flat_map. exists ra. split; [|exact Hca].
+      apply (nth_error_In _ ta). rewrite nth_error_firstn_lt by assumption. exact Ha. }
+    destruct Hcb as [<-|[<-|[]]]; tauto. }
+  destruct (Nat.lt_trichotomy t1 t2) as [H|[H|H]]; [exfalso; eauto | exact H | exfalso; eauto].
+Qed.
+
+Lemma alookup_aremove_Some {A} (l : list (nat * A)) x y v :
+  NoDup (akeys l) -> alookup x (aremove y l) = Some v -> x <> y /\ alookup x l = Some v.
+Proof.
+  intros Hnd H. destruct (Nat.eq_dec x y) as [->|Hne].
+  - rewrite alookup_aremove_eq in H by assumption. discriminate.
+  - split; [exact Hne|]. now rewrite alookup_aremove_neq in H.
+Qed.
+
+Definition cntU (fl : nat -> bool) (t : nat) : nat := length (filter (fun t' => negb (fl t')) (seq 0 t)).
+
+Lemma cntU_S fl t : cntU fl (S t) = cntU fl t + (if fl t then 0 else 1).
+Proof. unfold cntU. rewrite seq_S, filter_app, app_length. simpl. destruct (fl t); reflexivity. Qed.
+
+Lemma cntU_le fl a b : a <= b -> cntU fl a <= cntU fl b.
+Proof. intros H. unfold cntU. replace b with (a + (b - a)) by lia. rewrite seq_split, filter_app, app_length. lia. Qed.
+
+Lemma cntU_inj fl a b : fl a = false -> fl b = false -> cntU fl a = cntU fl b -> a = b.
+Proof.
+  assert (Haux : forall a b, a < b -> fl a = false -> cntU fl a < cntU fl b).
+  { intros a0 b0 Hlt Ha. apply Nat.lt_le_trans with (cntU fl (S a0)); [rewrite cntU_S, Ha; lia | apply cntU_le; lia]. }
+  intros Ha Hb E. destruct (Nat.lt_trichotomy a b) as [H|[H|H]]; [|exact H|].
+  - apply (Haux a b H) in Ha. lia.
+  - apply (Haux b a H) in Hb. lia.
+Qed.
+
+Lemma cntT_cntU fl t : cntT fl t + cntU fl t = t.
+Proof. induction t as [|t IH]; [reflexivity|]. rewrite cntT_S, cntU_S. destruct (fl t); lia. Qed.
+
+(** Rows of [rows] (numbered from t) that the replay did not apply. *)
+Fixpoint urows (fl : nat -> bool) (t : nat) (rows : dendrogram) : dendrogram :=
+  match rows with
+  | [] => []
+  | r :: rest => if fl t then urows fl (S t) rest else r :: urows fl (S t) rest
+  end.
+
+Lemma urows_length fl rows : forall t, length (urows fl t rows) + cntU fl t = cntU fl (t + length rows).
+Proof.
+  induction rows as [|r rows IH]; intros t; simpl; [now rewrite Nat.add_0_r|].
+  specialize (IH (S t)). rewrite cntU_S in IH. replace (t + S (length rows)) with (S t + length rows) by lia.
+  destruct (fl t); simpl in *; lia.
+Qed.
+
+Section Reduced.
+Context (n : nat) (D : dendrogram) (Hv : valid n D = true) (fl : nat -> bool) (K : cstate)
+        (HG : ginv n D (length D) fl K) (pst : cstate) (HP : Permutation pst K).
+
+Let labels := labels_of n (map snd pst).
+Let k := length pst.
+Let lab := fun x => nth (hd 0 (leaves n D x)) labels 0.
+Let inside_b := fun x => Nat.ltb x n || fl (x - n).
+Let phi := fun x => if inside_b x then lab x else k + cntU fl (x - n).
+
+Lemma red_cpart : cpart n D pst.
+Proof. destruct HG as (Hc & _). exact (cinv_cpart n D _ K pst Hc HP). Qed.
+
+Lemma inside_b_iff x : inside_b x = true <-> inside n fl x.
+Proof. unfold inside_b, inside. rewrite orb_true_iff, Nat.ltb_lt. tauto. Qed.
+
+Lemma red_same_label k0 c : In (k0, c) K ->
+  exists l, l < k /\ nth l pst (0, []) = (k0, c) /\ forall u, In u c -> nth u labels 0 = l.
+Proof.
+  intros Hin. assert (Hcp := red_cpart). assert (HP' := Permutation_sym HP). apply (Permutation_in _ HP') in Hin.
+  destruct (In_nth _ _ (0, []) Hin) as [l [Hl Enth]]. exists l. split; [exact Hl|]. split; [exact Enth|].
+  intros u Hu.
+  destruct (cpart_labels n D _ Hcp) as (_ & _ & H3 & _).
+  destruct (cpart_clusters n D _ Hcp) as (_ & _ & Hlt & Hleaves).
+  destruct Hcp as (_ & Hcl & _). destruct (Hcl k0 c Hin) as [Ec _].
+  assert (Hun : u < n).
+  { apply (Hlt l u Hl). destruct (Hleaves l Hl) as [-> _]. rewrite Enth. simpl. now rewrite <- Ec. }
+  apply H3; [exact Hl | exact Hun |]. rewrite Enth. simpl. now rewrite <- Ec.
+Qed.
+
+Lemma red_root_lab r : In r (akeys K) ->
+  exists c, In (r, c) K /\ c = leaves n D r /\ lab r < k /\ nth (lab r) pst (0, []) = (r, c).
+Proof.
+  intros Hr. unfold akeys in Hr. apply in_map_iff in Hr. destruct Hr as [[r' c] [E Hin]]. simpl in E. subst r'.
+  destruct HG as ((_ & Hcl & _) & _). destruct (Hcl r c Hin) as (_ & Ec & Hne).
+  exists c. split; [exact Hin|]. split; [exact Ec|].
+  assert (Hhd : In (hd 0 (leaves n D r)) c) by (rewrite <- Ec; destruct c; [congruence | now left]).
+  destruct (red_same_label r c Hin) as (l & Hl & Enth & El). unfold lab. rewrite (El _ Hhd). split; assumption.
+Qed.
+
+Lemma red_root_inj r1 r2 : In r1 (akeys K) -> In r2 (akeys K) -> lab r1 = lab r2 -> r1 = r2.
+Proof.
+  intros H1 H2 E. destruct (red_root_lab r1 H1) as (c1 & _ & _ & _ & E1).
+  destruct (red_root_lab r2 H2) as (c2 & _ & _ & _ & E2). rewrite E, E2 in E1. now inversion E1.
+Qed.
+
+Lemma red_applied t r : nth_error D t = Some r -> fl t = true ->
+  inside_b (r_left r) = true /\ inside_b (r_right r) = true /\
+  lab (r_left r) = lab (n + t) /\ lab (r_right r) = lab (n + t).
+Proof.
+  intros Hr Hfl. assert (Hids := valid_ids_lt n D Hv).
+  assert (Ht : t < length D) by (apply nth_error_Some; congruence).
+  destruct HG as (_ & _ & HF & _). destruct (HF t r Ht Hr Hfl) as (Hi & Hj & k0 & c & Hin & Hincl).
+  split; [now apply inside_b_iff|]. split; [now apply inside_b_iff|].
+  destruct (Hids _ _ Hr) as [Hil Hjl].
+  assert (Hni : leaves n D (r_left r) <> []) by (apply leaves_nonempty; [assumption | lia]).
+  assert (Hnj : leaves n D (r_right r) <> []) by (apply leaves_nonempty; [assumption | lia]).
+  assert (Hnode := leaves_node n D t r Hids Hr).
+  destruct (red_same_label k0 c Hin) as (l & _ & _ & Hl).
+  assert (Hall : forall u, In u (leaves n D (n + t)) -> nth u labels 0 = l) by (intros u Hu; apply Hl, Hincl, Hu).
+  assert (Hh : In (hd 0 (leaves n D (n + t))) (leaves n D (n + t))).
+  { rewrite Hnode. destruct (leaves n D (r_left r)); [congruence | now left]. }
+  unfold lab. rewrite (Hall _ Hh). split; apply Hall; rewrite Hnode; apply in_app_iff.
+  - left. destruct (leaves n D (r_left r)); [congruence | now left].
+  - right. destruct (leaves n D (r_right r)); [congruence | now left].
+Qed.
+
+(** A child of a merge that was not applied is either a cluster root or itself a merge that was not applied. *)
+Lemma red_top t r c : nth_error D t = Some r -> fl t = false -> In c (children r) ->
+  inside_b c = true -> In c (akeys K).
+Proof.
+  intros Hr Hfl Hc Hins. destruct (valid_rows n D Hv) as [Hlen Hrows].
+  assert (Ht : t < length D) by (apply nth_error_Some; congruence).
+  destruct HG as (_ & HK & _). apply HK. destruct (Hrows t r Hr) as (_ & Hil & Hjl & _).
+  split; [destruct Hc as [<-|[<-|[]]]; lia|]. split; [now apply inside_b_iff|].
+  intros Hin. unfold achildren in Hin. apply in_flat_map in Hin. destruct Hin as [t' [Ht' Hc']].
+  apply in_seq in Ht'. destruct (fl t') eqn:Hfl'; [|contradiction].
+  assert (Hlt' : t' < length D) by lia. apply nth_error_Some in Hlt'.
+  destruct (nth_error D t') as [r'|] eqn:Er'; [|congruence].
+  rewrite (nth_error_nth' _ _ _ drow0 Er') in Hc'.
+  assert (t' = t) by (eapply (child_unique n D t' t r' r c); eassumption). subst t'. congruence.
+Qed.
+
+Definition rinv (t : nat) (cindex csize : list (nat * nat)) : Prop :=
+  linv n (firstn t D) cindex /\
+  (forall x v, alookup x cindex = Some v -> v = phi x) /\
+  NoDup (akeys csize) /\
+  (forall m, In m (akeys csize) -> m < k + cntU fl t) /\
+  (forall r, In r (akeys K) -> ~ In r (flat_map children (firstn t D)) ->
+             alookup (lab r) csize = Some (length (leaves n D r))) /\
+  (forall x, In x (akeys cindex) -> inside_b x = false ->
+             alookup (phi x) csize = Some (length (leaves n D x))).
+
+(** phi separates the two children of a merge that was not applied, and any other live id. *)
+Lemma red_phi_neq x y : x <> y ->
+  (inside_b x = true -> In x (akeys K)) -> (inside_b y = true -> In y (akeys K)) -> phi x <> phi y.
+Proof.
+  intros Hne Hx Hy E. unfold phi in E.
+  destruct (inside_b x) eqn:Ex, (inside_b y) eqn:Ey.
+  - apply Hne. apply red_root_inj; auto.
+  - destruct (red_root_lab x (Hx eq_refl)) as (_ & _ & _ & Hl & _). lia.
+  - destruct (red_root_lab y (Hy eq_refl)) as (_ & _ & _ & Hl & _). lia.
+  - unfold inside_b in Ex, Ey. apply orb_false_iff in Ex, Ey. destruct Ex as [Ex1 Ex2], Ey as [Ey1 Ey2].
+    apply Nat.ltb_ge in Ex1, Ey1. assert (x - n = y - n) by (apply (cntU_inj fl); [assumption|assumption|lia]). lia.
+Qed.
+
+Lemma red_loop : forall rows done cindex csize,
+  D = done ++ rows -> rinv (length done) cindex csize ->
+  exists out, reduce_loop rows cindex csize (n + length done) (k + cntU fl (length done)) = Ok out /\
+              heights out = heights (urows fl (length done) rows).
+Proof.
+  assert (Hids := valid_ids_lt n D Hv). destruct (valid_rows n D Hv) as [Hlen Hrows].
+  induction rows as [|r rows IH]; intros done cindex csize HD Hinv; [exists []; now split|].
+  set (t := length done) in *.
+  assert (Hr : nth_error D t = Some r) by (rewrite HD; apply nth_error_app_length).
+  assert (Hfn : firstn t D = done) by (rewrite HD; apply firstn_app_length).
+  assert (Hfs : firstn (S t) D = done ++ [r]) by (rewrite (firstn_S_nth D t r Hr), Hfn; reflexivity).
+  destruct Hinv as (R1 & R2 & R3 & R4 & R5 & R6). rewrite Hfn in R1, R5.
+  destruct (Hrows t r Hr) as (Hne & Hil & Hjl & Hiu & Hju). rewrite Hfn in Hiu, Hju.
+  assert (R1' := R1). destruct R1' as (Hnd & Hkeys & Hch).
+  assert (Hik : In (r_left r) (akeys cindex)) by (apply Hkeys; fold t; tauto).
+  assert (Hjk : In (r_right r) (akeys cindex)) by (apply Hkeys; fold t; tauto).
+  destruct (In_key_alookup _ _ Hik) as [vi Hi]. destruct (In_key_alookup _ _ Hjk) as [vj Hj].
+  assert (Evi := R2 _ _ Hi). assert (Evj := R2 _ _ Hj). subst vi vj.
+  assert (Hj1 : alookup (r_right r) (aremove (r_left r) cindex) = Some (phi (r_right r)))
+    by (rewrite alookup_aremove_neq by auto; exact Hj).
+  assert (Hnode := leaves_node n D t r Hids Hr).
+  assert (Hstep : forall s, linv n (done ++ [r]) (aremove (r_right r) (aremove (r_left r) cindex) ++ [(n + t, s)]))
+    by (intros s; exact (valid_run_step n done cindex r R1 _ _ Hi Hj Hne s)).
+  assert (Hold : forall x v s, alookup x (aremove (r_right r) (aremove (r_left r) cindex) ++ [(n + t, s)]) = Some v ->
+                               (x <> r_left r /\ x <> r_right r /\ alookup x cindex = Some v) \/ (x = n + t /\ v = s)).
+  { intros x v s H. rewrite alookup_app in H.
+    destruct (alookup x (aremove (r_right r) (aremove (r_left r) cindex))) as [v'|] eqn:E.
+    - inversion H; subst v'. apply alookup_aremove_Some in E; [|now apply NoDup_aremove].
+      destruct E as [E1 E]. apply alookup_aremove_Some in E; [|assumption]. left. tauto.
+    - simpl in H. destruct (Nat.eqb x (n + t)) eqn:E2; [|discriminate]. apply Nat.eqb_eq in E2. inversion H. now right. }
+  simpl. rewrite Hi, Hj1.
+  destruct (fl t) eqn:Hfl.
+  - (* applied: both children carry the same label, nothing is emitted *)
+    destruct (red_applied t r Hr Hfl) as (Hbi & Hbj & Eli & Elj).
+    assert (Ephi : phi (r_left r) = phi (r_right r)) by (unfold phi; rewrite Hbi, Hbj; congruence).
+    rewrite Ephi, Nat.eqb_refl. simpl.
+    destruct (IH (done ++ [r]) (aremove (r_right r) (aremove (r_left r) cindex) ++ [(n + t, phi (r_left r))]) csize) as [out [Hout Hh]].
+    + now rewrite <- app_assoc.
+    + rewrite app_length. simpl. rewrite Nat.add_1_r. fold t. unfold rinv. rewrite Hfs, cntU_S, Hfl, Nat.add_0_r.
+      split; [apply Hstep|]. split; [|split; [exact R3|split; [exact R4|split]]].
+      * intros x v H. apply Hold in H. destruct H as [(_ & _ & H)|[-> ->]]; [now apply R2|].
+        unfold phi at 2. unfold inside_b. replace (n + t - n) with t by lia. rewrite Hfl, orb_true_r.
+        unfold phi. now rewrite Hbi.
+      * intros r0 Hr0 Hnot. apply R5; [exact Hr0|]. intros Hc. apply Hnot. rewrite flat_map_app, in_app_iff. now left.
+      * intros x Hx Hout'. rewrite akeys_app, in_app_iff in Hx. destruct Hx as [Hx|[<-|[]]].
+        -- apply R6; [|exact Hout']. now apply akeys_aremove_In, akeys_aremove_In in Hx.
+        -- unfold inside_b in Hout'. replace (n + t - n) with t in Hout' by lia. rewrite Hfl, orb_true_r in Hout'. discriminate.
+    + exists out. rewrite app_length in Hout, Hh. simpl in Hout, Hh. rewrite Nat.add_1_r in Hout, Hh. fold t in Hout, Hh.
+      rewrite cntU_S, Hfl, Nat.add_0_r, <- plus_n_Sm in Hout. rewrite <- Ephi. split; [exact Hout|exact Hh].
+  - (* not applied: a row is emitted *)
+    assert (Hti : inside_b (r_left r) = true -> In (r_left r) (akeys K))
+      by (apply (red_top t r _ Hr Hfl); now left).
+    assert (Htj : inside_b (r_right r) = true -> In (r_right r) (akeys K))
+      by (apply (red_top t r _ Hr Hfl); right; now left).
+    assert (Hneq : phi (r_left r) <> phi (r_right r)) by (apply red_phi_neq; assumption).
+    replace (Nat.eqb (phi (r_left r)) (phi (r_right r))) with false by (symmetry; now apply Nat.eqb_neq). simpl.
+    assert (Hsz : forall c, In c (children r) -> alookup (phi c) csize = Some (length (leaves n D c))).
+    { intros c Hc. assert (Hck : In c (akeys cindex)) by (destruct Hc as [<-|[<-|[]]]; assumption).
+      assert (Hcu : ~ In c (flat_map children done)) by (destruct Hc as [<-|[<-|[]]]; assumption).
+      destruct (inside_b c) eqn:Ec.
+      - unfold phi. rewrite Ec. apply R5; [|exact Hcu]. apply (red_top t r c Hr Hfl Hc Ec).
+      - now apply R6. }
+    rewrite (Hsz (r_left r)) by now left.
+    rewrite alookup_aremove_neq by auto. rewrite (Hsz (r_right r)) by (right; now left).
+    set (cn := k + cntU fl t). set (sz := length (leaves n D (r_left r)) + length (leaves n D (r_right r))).
+    assert (Hcn_fresh : ~ In cn (akeys csize)) by (intros Hc; apply R4 in Hc; unfold cn in Hc; lia).
+    assert (Hphi_lt : forall x, In x (akeys cindex) -> (inside_b x = true -> In x (akeys K)) -> phi x < cn).
+    { intros x Hx Hxt. destruct (inside_b x) eqn:Ex.
+      - unfold phi. rewrite Ex. destruct (red_root_lab x (Hxt eq_refl)) as (_ & _ & _ & Hl & _). unfold cn. lia.
+      - assert (H6 := R6 x Hx Ex). apply alookup_key, R4 in H6. exact H6. }
+    destruct (IH (done ++ [r]) (aremove (r_right r) (aremove (r_left r) cindex) ++ [(n + t, cn)])
+                 (aremove (phi (r_right r)) (aremove (phi (r_left r)) csize) ++ [(cn, sz)])) as [out [Hout Hh]].
+    + now rewrite <- app_assoc.
+    + rewrite app_length. simpl. rewrite Nat.add_1_r. fold t. unfold rinv. rewrite Hfs, cntU_S, Hfl.
+      assert (Hcs_keys : forall m, In m (akeys (aremove (phi (r_right r)) (aremove (phi (r_left r)) csize))) ->
+                                   In m (akeys csize)) by (intros m Hm; now apply akeys_aremove_In, akeys_aremove_In in Hm).
+      assert (Hkeep : forall m, m <> phi (r_left r) -> m <> phi (r_right r) -> m <> cn ->
+                alookup m (aremove (phi (r_right r)) (aremove (phi (r_left r)) csize) ++ [(cn, sz)]) = alookup m csize).
+      { intros m H1 H2 H3. rewrite alookup_app, !alookup_aremove_neq by assumption.
+        destruct (alookup m csize); [reflexivity|]. simpl.
+        destruct (Nat.eqb m cn) eqn:E; [apply Nat.eqb_eq in E; congruence | reflexivity]. }
+      split; [apply Hstep|]. split; [|split; [|split; [|split]]].
+      * intros x v H. apply Hold in H. destruct H as [(_ & _ & H)|[-> ->]]; [now apply R2|].
+        unfold phi, inside_b. replace (n + t - n) with t by lia. rewrite Hfl, orb_false_r.
+        replace (Nat.ltb (n + t) n) with false by (symmetry; apply Nat.ltb_ge; lia). reflexivity.
+      * apply NoDup_akeys_app_fresh; [apply NoDup_aremove, NoDup_aremove, R3|]. intros Hc. apply Hcn_fresh. now apply Hcs_keys.
+      * intros m Hm. rewrite akeys_app, in_app_iff in Hm. destruct Hm as [Hm|[<-|[]]].
+        -- apply Hcs_keys, R4 in Hm. lia.
+        -- unfold cn. lia.
+      * intros r0 Hr0 Hnot. rewrite flat_map_app, in_app_iff in Hnot. simpl in Hnot.
+        assert (Hr0i : r0 <> r_left r) by (intros ->; apply Hnot; right; now left).
+        assert (Hr0j : r0 <> r_right r) by (intros ->; apply Hnot; right; right; now left).
+        destruct (red_root_lab r0 Hr0) as (_ & _ & _ & Hl0 & _).
+        rewrite Hkeep; [apply R5; [exact Hr0 | tauto] | | | unfold cn; lia].
+        -- destruct (inside_b (r_left r)) eqn:Ei.
+           ++ unfold phi. rewrite Ei. intros E. apply Hr0i. apply red_root_inj; auto.
+           ++ unfold phi. rewrite Ei. lia.
+        -- destruct (inside_b (r_right r)) eqn:Ej.
+           ++ unfold phi. rewrite Ej. intros E. apply Hr0j. apply red_root_inj; auto.
+           ++ unfold phi. rewrite Ej. lia.
+      * intros x Hx Hxo. rewrite akeys_app, in_app_iff in Hx. destruct Hx as [Hx|[<-|[]]].
+        -- assert (Hx' : In x (akeys cindex) /\ x <> r_left r /\ x <> r_right r).
+           { rewrite akeys_aremove_iff in Hx by now apply NoDup_aremove. rewrite akeys_aremove_iff in Hx by assumption. tauto. }
+           destruct Hx' as (Hxk & Hxi & Hxj).
+           assert (Hxt : inside_b x = true -> In x (akeys K)) by (rewrite Hxo; discriminate).
+           rewrite Hkeep; [now apply R6 | | |].
+           ++ apply red_phi_neq; assumption.
+           ++ apply red_phi_neq; assumption.
+           ++ assert (H := Hphi_lt x Hxk Hxt). lia.
+        -- assert (Ephi : phi (n + t) = cn).
+           { unfold phi, inside_b. replace (n + t - n) with t by lia. rewrite Hfl, orb_false_r.
+             replace (Nat.ltb (n + t) n) with false by (symmetry; apply Nat.ltb_ge; lia). reflexivity. }
+           rewrite Ephi, alookup_app.
+           assert (Hnone : alookup cn (aremove (phi (r_right r)) (aremove (phi (r_left r)) csize)) = None).
+           { apply alookup_None. intros Hc. apply Hcn_fresh. now apply Hcs_keys. }
+           rewrite Hnone. simpl. rewrite Nat.eqb_refl. f_equal. rewrite Hnode, app_length. reflexivity.
+    + rewrite app_length in Hout, Hh. simpl in Hout, Hh. rewrite Nat.add_1_r in Hout, Hh. fold t in Hout, Hh.
+      rewrite cntU_S, Hfl, <- !plus_n_Sm, Nat.add_0_r in Hout. fold cn in Hout. rewrite Hout.
+      eexists. split; [reflexivity|]. unfold heights in *. simpl. now rewrite Hh.
+Qed.
+End Reduced.
